@@ -94,6 +94,10 @@ type floatToIntFinding struct {
 	Operand *flow.Term
 }
 
+func isFloat64(t types.Type) bool {
+	b, ok := t.Underlying().(*types.Basic)
+	return ok && b.Kind() == types.Float64
+}
 func isFloat(t types.Type) bool {
 	b, ok := t.Underlying().(*types.Basic)
 	return ok && b.Info()&types.IsFloat != 0
@@ -136,6 +140,21 @@ func floatToInt(fns []*ssa.Function) []floatToIntFinding {
 								}
 							}
 						}
+					}
+				}
+				if !f.Rounded {
+					// the same idioms seen through an inlined helper (`v, err := parseScaled(s, k); …; T(v)`)
+					t := skin(f.Operand)
+					half := func(x *flow.Term) bool {
+						return x.Op == "bin" && x.Val == "+" && len(x.Args) == 2 && (x.Args[1].String() == "0.5" || x.Args[0].String() == "0.5")
+					}
+					switch {
+					case t.Op == "call" && (t.Val == "math.Round" || t.Val == "math.RoundToEven"):
+						f.Rounded = true
+					case t.Op == "call" && t.Val == "math.Floor" && len(t.Args) == 1 && half(skin(t.Args[0])):
+						f.Rounded = true
+					case half(t):
+						f.Rounded = true
 					}
 				}
 				out = append(out, f)
@@ -313,14 +332,36 @@ func c17Pairs(c *Ctx) {
 					}
 				}
 			}
+			var fvT *flow.Term
+			if fv != nil {
+				fvT = e.Term(fv)
+			} else {
+				// no direct call: the returned bytes as a term (helpers inlined): json.Marshal(X)#0
+				for _, r := range flow.Returns(fn) {
+					t := e.Select(r.Results[0], nil, r)
+					if t.Op == "extract" && t.Val == "0" && len(t.Args) == 1 && t.Args[0].Op == "call" && t.Args[0].Val == "encoding/json.Marshal" && len(t.Args[0].Args) == 1 {
+						x := t.Args[0].Args[0]
+						if x.Type != nil && !isFloat64(x.Type) {
+							c.Run.Bad(rule, key+"/repr", ipos(c, r), "a float64 is marshalled", "value of type "+x.Type.String())
+							how = "-"
+						} else {
+							how = "encoding/json.Marshal(float64) through a helper: shortest representation that round-trips"
+						}
+						fvT = x
+					}
+				}
+			}
 			switch {
-			case fv == nil:
+			case fvT == nil:
 				c.Run.Unknown(rule, key+"/repr", fpos(c, fn), "the float64 is handed to encoding/json.Marshal or strconv.FormatFloat", "no such call (formatting outside the supported subset)")
 			case how != "-" && how != "":
 				c.Run.OK(rule, key+"/repr", fpos(c, fn), "lossless float64 text representation", how, true)
 			}
-			if fv != nil {
-				t := e.Term(fv)
+			if fvT != nil {
+				t := fvT
+				for t.Op == "conv" && len(t.Args) == 1 && t.Val != "float64" && t.Args[0].Op == "bin" {
+					t = t.Args[0] // interface boxing of the quotient
+				}
 				if t.Op == "bin" && t.Val == "/" && t.Args[1].Op == "const" {
 					kM = t.Args[1]
 					checkTerm(c, rule, key+"/dividend", fpos(c, fn), "scaled value", t.Args[0], flow.Conv("float64", flow.Param(0)))
@@ -335,10 +376,18 @@ func c17Pairs(c *Ctx) {
 		if fn := flowFn(c, rule, "backend", T.name+".UnmarshalJSON"); fn != nil {
 			key := fnKey(fn)
 			e := flow.For(fn)
-			if s, ok := oneSite(c, rule, key+"/call:strconv.ParseFloat", fn, "strconv.ParseFloat"); ok {
-				checkTerm(c, rule, key+"/input", ipos(c, s.Instr), "parsed text", s.Args[0], flow.Conv("string", flow.Param(1)))
-				checkTerm(c, rule, key+"/bitsize", ipos(c, s.Instr), "ParseFloat bit size", s.Args[1], flow.ConstInt(64))
-				pf := flow.Extract(e.Term(s.Value()), 0)
+			pfWant := flow.Extract(flow.Call("strconv.ParseFloat", flow.Conv("string", flow.Param(1)), flow.ConstInt(64)), 0)
+			sites := flow.Calls(fn, flow.Named("strconv.ParseFloat"))
+			if len(sites) > 1 {
+				c.Run.Unknown(rule, key+"/call:strconv.ParseFloat", fpos(c, fn), "one call of strconv.ParseFloat in "+fnKey(fn), fmt.Sprintf("%d calls", len(sites)))
+			} else {
+				pf := pfWant // no direct call: the stored value (helpers inlined) must be built from exactly this parse
+				if len(sites) == 1 {
+					s := sites[0]
+					checkTerm(c, rule, key+"/input", ipos(c, s.Instr), "parsed text", s.Args[0], flow.Conv("string", flow.Param(1)))
+					checkTerm(c, rule, key+"/bitsize", ipos(c, s.Instr), "ParseFloat bit size", s.Args[1], flow.ConstInt(64))
+					pf = flow.Extract(e.Term(s.Value()), 0)
+				}
 				// the stored value: conv<int>( [math.Round]( pf * K ) )
 				n := 0
 				for _, r := range flow.Returns(fn) {
